@@ -18,11 +18,11 @@ def run(col, configs, tier):
         guarded(col, I.rule_div128, facts)
         guarded(col, I.rule_steps, facts)
         guarded(col, I.rule_sizes, facts)
-        guarded(col, X.rule_step_helper_agreement, facts)
-        guarded(col, X.rule_jeaiii, facts)
-        guarded(col, X.rule_chunk_padding, facts)
+        guarded_soft(col, X.rule_step_helper_agreement, facts)
+        guarded_soft(col, X.rule_jeaiii, facts)
+        guarded_soft(col, X.rule_chunk_padding, facts)
         guarded_soft(col, X.rule_u128_count_chunks, facts)
-        guarded(col, X.rule_index_widening, facts)
-        guarded(col, X.rule_naive_count_stages, facts)
+        guarded_soft(col, X.rule_index_widening, facts)
+        guarded_soft(col, X.rule_naive_count_stages, facts)
         from rules import c08
         guarded(col, c08.rule_mask_shift, facts)
